@@ -12,8 +12,14 @@ RAISERS = ['SCHEDULE\n  P{1a b} x\n', 'SCHEDULE h\n  ANNEXURE\n    P{tag x} y\n'
 PROBES = ['x\nSCHEDULE\n  y\n', 'ATTACHMENT a\n  b\nATTACHMENT c\n  d\n', 'SEC 1.\n  a\nANNEXURE\n  SCHEDULE\n    q\n', 'PART 1\n  SEC 2.\n    text\n', 'just text\n']
 
 
+OTHER_NS = ['http://www.akomantoso.org/2.0', 'http://docs.oasis-open.org/legaldocml/ns/akn/3.0/WD17', 'urn:x-other']
+
+
 def rand_history(rng):
     calls = []
+    if rng.random() < 0.25:
+        # the id generator's very first job is a document in another namespace (an older Akoma Ntoso version)
+        calls.append({'op': 'rewrite', 'tree': eidlib.rand_tree(rng, max_depth=3), 'prefix': rng.choice(['', 'a']), 'ns': rng.choice(OTHER_NS)})
     for _ in range(rng.randint(1, 5)):
         k = rng.random()
         root = rng.choice(gen.ROOTS6)
@@ -24,7 +30,8 @@ def rand_history(rng):
         elif k < 0.7:
             calls.append({'op': 'convert', 'text': gen.noise_text(rng, unsafe=True), 'root': root})
         elif k < 0.8:
-            calls.append({'op': 'rewrite', 'tree': eidlib.rand_tree(rng, max_depth=3), 'prefix': rng.choice(['', 'a'])})
+            calls.append({'op': 'rewrite', 'tree': eidlib.rand_tree(rng, max_depth=3), 'prefix': rng.choice(['', 'a']),
+                          'ns': rng.choice([None, None, None] + OTHER_NS)})
         elif k < 0.9:
             calls.append({'op': 'parse', 'text': gen.noise_text(rng), 'root': root})
         else:
@@ -43,7 +50,7 @@ def run_history(p, calls):
                 last_xml = r['etree']
             outs.append(real.strip_etree(r))
         elif c['op'] == 'rewrite':
-            el = eidlib.to_etree(c['tree'])
+            el = eidlib.to_etree(c['tree'], c.get('ns'))
             m = p.generator.ids.rewrite_all_eids(el, c['prefix'])
             outs.append({'tree': real.canon(el, stub_meta=False), 'mapping': sorted([k, v] for k, v in dict(m).items())})
         elif c['op'] == 'parse':
